@@ -36,6 +36,8 @@ type DocSpec struct {
 	URLPage   [][2]any   `json:"url_page,omitempty"`
 	URLInc    [][]string `json:"url_include,omitempty"` // inclusion paths as relationship names from the URL's type
 	ResMeta   bool       `json:"resource_meta,omitempty"` // every resource carries its own meta object
+	NilFields bool       `json:"nil_fields_map,omitempty"` // url.Params.Fields is a nil map (a hand-written &Params{}): no selection entry for any type
+	NotCol    bool       `json:"url_not_marked_collection,omitempty"` // a hand-written URL literal whose IsCol was left false
 	SpareCap  bool       `json:"spare_capacity,omitempty"` // the selection lists are slices with spare capacity
 }
 
@@ -301,6 +303,11 @@ func genDoc(r *RNG, o docOpts) *DocSpec {
 		d.Links = map[string]string{"next": "/n?page=2", "about": genString(r)}
 	}
 	d.ResMeta = r.Chance(1, 4)
+	if r.Chance(1, 12) {
+		d.NilFields = true
+		d.Fields = map[string][]string{}
+	}
+	d.NotCol = r.Chance(1, 8)
 	d.SpareCap = r.Chance(1, 3)
 	t0 := &s.Types[0]
 	if r.Chance(1, 4) {
@@ -465,6 +472,9 @@ func (d *DocSpec) build() *docBuilt {
 		ResType:   d.Frags[0],
 		Params:    &jsonapi.Params{Fields: copyStrMap(d.Fields), SortingRules: []string{}, Page: map[string]any{}},
 	}
+	if d.NilFields && len(d.Fields) == 0 {
+		b.URL.Params.Fields = nil
+	}
 	if len(d.Frags) >= 2 {
 		b.URL.ResID = d.Frags[1]
 	}
@@ -481,6 +491,9 @@ func (d *DocSpec) build() *docBuilt {
 				}
 			}
 		}
+	}
+	if d.NotCol {
+		b.URL.IsCol = false
 	}
 	if d.SpareCap {
 		for k, v := range b.URL.Params.Fields {
